@@ -187,6 +187,7 @@ func (s *Shared) attachStream(address PhysicalAddress, stream sharedStream) {
 func (s *Shared) detachStream(address PhysicalAddress) {
 	stream, loaded := s.streams.LoadAndDelete(address)
 	if loaded {
+		stream.Terminate(nil)
 		_ = stream.Send(&SharedMessage{
 			MessageType: &SharedMessage_Farewell{&Farewell{Address: s.rc.GetPhysicalAddress()}},
 		})
@@ -239,6 +240,7 @@ func (s *Shared) streaming(address PhysicalAddress, stream sharedStream) (err er
 		hook.OnShareOpened(address)
 	}
 	defer func() {
+		stream.Terminate(nil)
 		s.detachStream(address)
 		for _, hook := range s.config.shareClosedHooks {
 			hook.OnShareClosed(address)
